@@ -913,7 +913,7 @@ class sptensor:
             if self.shape != other.shape:
                 assert False, "Sptensor and tensor must be same shape for innerproduct"
             [subsSelf, valsSelf] = self.find()
-            valsOther = other[subsSelf]
+            valsOther = np.atleast_1d(other[subsSelf])
             return valsOther.transpose().dot(valsSelf).item()
 
         if isinstance(other, (ttb.ktensor, ttb.ttensor)):  # pragma: no cover
@@ -1029,7 +1029,9 @@ class sptensor:
             return C
 
         if isinstance(other, ttb.tensor):
-            BB = sptensor(self.subs, other[self.subs][:, None], self.shape)
+            BB = sptensor(
+                self.subs, np.atleast_1d(other[self.subs])[:, None], self.shape
+            )
             C = self.logical_and(BB)
             return C
 
@@ -1715,7 +1717,7 @@ class sptensor:
                 assert False, "Size mismatch in scale"
             return ttb.sptensor(
                 self.subs,
-                self.vals * factor[self.subs[:, dims]][:, None],
+                self.vals * np.atleast_1d(factor[self.subs[:, dims]])[:, None],
                 self.shape,
             )
         if isinstance(factor, ttb.sptensor):
@@ -2680,7 +2682,7 @@ class sptensor:
             # Find where their nonzeros intersect
             znzsubs = np.empty(shape=(0, other.ndims), dtype=int)
             if self.nnz > 0:
-                othervals = other[self.subs]
+                othervals = np.atleast_1d(other[self.subs])
                 znzsubs = self.subs[(othervals[:, None] == self.vals).transpose()[0], :]
 
             return sptensor(
@@ -2977,7 +2979,7 @@ class sptensor:
             )
         if isinstance(other, ttb.tensor):
             csubs = self.subs
-            cvals = self.vals * other[csubs][:, None]
+            cvals = self.vals * np.atleast_1d(other[csubs])[:, None]
             return ttb.sptensor(csubs, cvals, self.shape)
         if isinstance(other, ttb.ktensor):
             csubs = self.subs
@@ -3354,7 +3356,7 @@ class sptensor:
 
         if isinstance(other, ttb.tensor):
             csubs = self.subs
-            cvals = self.vals / other[csubs][:, None]
+            cvals = self.vals / np.atleast_1d(other[csubs])[:, None]
             return ttb.sptensor(csubs, cvals, self.shape)
         if isinstance(other, ttb.ktensor):
             # TODO consider removing epsilon and generating nans consistent with above
